@@ -2,7 +2,7 @@
     reachable pool are accepted (the judge raises no alarm on a pool that satisfies the invariant). *)
 From Coq Require Import List NArith ZArith Lia Bool Permutation.
 From Verif Require Import Base.BStr Base.ListX Txcache.TxTypes Txcache.SenderList Txcache.Selection Txcache.Pool Txcache.Judge
-  Txcache.SenderList_proofs Txcache.Pool_proofs Txcache.Pool_props.
+  Txcache.SenderList_proofs Txcache.Selection_proofs Txcache.Pool_proofs Txcache.Pool_props.
 Import ListNotations.
 Open Scope Z_scope.
 
@@ -223,4 +223,40 @@ Proof.
   - intros a l Hal. simpl in Hal. apply in_map_iff in Hal. destruct Hal as (a' & E & _). inversion E; subst. rewrite map_length.
     apply (run_pool_count_ok cfg (ops ++ [PAdd t]) Hok Hc).
   - intros Hev. simpl. apply (run_pool_pool_wide cfg ops t Hok HT Hev Hpos).
+Qed.
+
+(** ---------- C02: the five judges of a selection result ---------- *)
+
+Definition c02_result (sess : session) (gasRequested acc : N) (maxNum : nat) (result : list tx) : Prop :=
+  NoDup (map hash result) /\ (length result <= maxNum)%nat /\
+  (sum_gas result = acc /\ (acc <= gasRequested)%N) /\
+  (forall t, In t result -> guarded sess t = false) /\
+  (forall pre t post, result = pre ++ t :: post -> committed pre (feePayer t) + fee t <= sess_balance sess (feePayer t)).
+
+Definition c02_allb (sess : session) (gasRequested acc : N) (maxNum : nat) (result : list tx) : bool :=
+  c02_distinctb result && c02_countb maxNum result && c02_gasb gasRequested acc result && c02_guardb sess result && c02_balanceb sess result.
+
+Theorem c02_allb_iff sess gasRequested acc maxNum result :
+  c02_allb sess gasRequested acc maxNum result = true <-> c02_result sess gasRequested acc maxNum result.
+Proof.
+  unfold c02_allb, c02_result, c02_distinctb, c02_countb, c02_gasb, c02_guardb, c02_balanceb.
+  rewrite !andb_true_iff, nodupb_iff, Nat.leb_le, N.eqb_eq, N.leb_le, forallb_forall, balance_walkb_spec.
+  split.
+  - intros ((((H1 & H2) & (H3 & H4)) & H5) & H6). repeat split; try assumption.
+    intros t Ht. apply negb_true_iff. apply H5. exact Ht.
+  - intros (H1 & H2 & (H3 & H4) & H5 & H6). repeat split; try assumption.
+    intros t Ht. apply negb_true_iff. apply H5. exact Ht.
+Qed.
+
+(** the model's own selection over any reachable pool passes all five *)
+Theorem run_pool_selection_accepted cfg ops sess gasRequested maxNum : hist_ok ops ->
+  let r := select_txs (run_pool cfg ops) sess gasRequested maxNum in
+  c02_allb sess gasRequested (snd r) maxNum (fst r) = true.
+Proof.
+  intros Hok. cbv zeta. pose proof (run_pool_inv cfg ops Hok) as HI. pose proof (inv_bunches_ok _ HI) as Hb.
+  apply c02_allb_iff. unfold select_txs. rewrite select_is_loop. cbn [fst snd]. unfold c02_result.
+  split; [apply env_C02_distinct; [exact Hb|apply inv_hash_NoDup; exact HI]|].
+  split; [apply env_C02_count; exact Hb|].
+  split; [apply env_C02_gas; exact Hb|].
+  split; [apply env_C02_guard; exact Hb|apply env_C02_balance; exact Hb].
 Qed.
